@@ -162,11 +162,11 @@ func verifyVariant(p *Program, con *Contract, choice []enumChoice, mode string, 
 	x.scanBoxed(con.Decl.Body)
 
 	st := &State{reach: c.True(), vars: map[types.Object]Val{}, heap: map[string]*Term{}}
-	alloc0 := x.heapGet(st, "alloc", SArr(SInt, SBool))
 	brk0 := x.heapGet(st, "ghost.brk", SInt)
+	alloc0 := brk0
 	x.assumeGlobal(st, c.Ge(brk0, c.Int(1)))
 	allocd := func(r *Term) {
-		x.assumeGlobal(st, c.And(c.Or(c.Eq(r, c.Int(0)), c.Select(alloc0, embRoot(r))), c.Lt(r, brk0)))
+		x.assumeGlobal(st, c.And(c.Ge(r, c.Int(0)), c.Lt(r, brk0)))
 	}
 	bindParam := func(p *types.Var, isRecv bool) {
 		t := p.Type()
@@ -311,6 +311,9 @@ func verifyVariant(p *Program, con *Contract, choice []enumChoice, mode string, 
 	// postcondition about it hold vacuously)
 	for k, r := range live {
 		x.cover(r, fmt.Sprintf("%s/cover.return#%d", con.Key, k+1), "return site reachable (assumptions on this path consistent)")
+		if con.UnreachableOK != "" {
+			x.obls[len(x.obls)-1].UnreachableOK = true
+		}
 	}
 	final := x.mergeN(live)
 	if final == nil {
@@ -345,6 +348,11 @@ func verifyVariant(p *Program, con *Contract, choice []enumChoice, mode string, 
 		}
 	}
 	for _, en := range con.Ensures {
+		if en.hasTag("assumed") {
+			// clause about ghost/abstract state that the body cannot establish: used at call sites only
+			x.assumed[fmt.Sprintf("clause %s of %s is assumed (abstract view of a component): %s", en.Name, con.Key, en.Text)] = true
+			continue
+		}
 		for _, p := range x.clauseParts(final, en, nil) {
 			name := fmt.Sprintf("%s/%s%s", con.Key, en.Name, p.suffix)
 			x.oblige(final, name, "ensures", en.Text, p.t)
@@ -429,7 +437,7 @@ func (x *Exec) frameObligations(entry, final *State, alloc0 *Term) {
 		if !ok {
 			et = x.heapGet(entry, name, ft.sort)
 		}
-		if ft == et || name == "alloc" || name == "ghost.brk" || strings.HasPrefix(name, "ghost.lockdepth") {
+		if ft == et || name == "ghost.brk" || strings.HasPrefix(name, "ghost.lockdepth") {
 			continue
 		}
 		locs := allowed[name]
@@ -495,7 +503,7 @@ func (x *Exec) frameObligations(entry, final *State, alloc0 *Term) {
 				continue
 			}
 			// semantic freshness: the root object of the written address was not allocated at entry
-			alts := []*Term{c.Not(c.Select(alloc0, embRoot(w.idx)))}
+			alts := []*Term{c.Ge(embRoot(w.idx), alloc0)}
 			for _, l := range locs {
 				alts = append(alts, c.Eq(w.idx, l.ref))
 			}
